@@ -26,6 +26,13 @@ impl Stdin {
     /// `None` indicates EOF.
     fn read_byte(&mut self) -> Option<u8> {
         let mut buf = [0; 1];
+        #[cfg(lace_verif)]
+        if let Some(bytes_read) = crate::verif::stdin_read(&mut buf) {
+            if bytes_read == 0 {
+                return None;
+            }
+            return Some(buf[0]);
+        }
         let bytes_read = self
             .stdin
             .read(&mut buf)
